@@ -300,9 +300,18 @@ func (c connectUnaryServerProtocol) extractProtocolResponseHeaders(statusCode in
 		}
 		endUnmarshaller = func(_ Codec, buf *bytes.Buffer, end *responseEnd) {
 			var wireErr connectWireError
-			if err := json.Unmarshal(buf.Bytes(), &wireErr); err != nil {
-				end.err = connect.NewError(connect.CodeInternal, err)
+			if contentType != contentTypeJSON || json.Unmarshal(buf.Bytes(), &wireErr) != nil {
+				// Not a Connect error (e.g. a bare HTTP failure from a proxy or the
+				// server's HTTP stack): infer the code from the HTTP status.
+				end.err = connect.NewError(
+					httpStatusCodeToRPC(statusCode),
+					fmt.Errorf("unexpected HTTP error: %d %s", statusCode, http.StatusText(statusCode)),
+				)
 				return
+			}
+			if wireErr.Code == 0 {
+				// An error must not carry the OK code.
+				wireErr.Code = httpStatusCodeToRPC(statusCode)
 			}
 			end.err = wireErr.toConnectError()
 		}
